@@ -7,7 +7,9 @@ ROOT = os.path.dirname(os.path.dirname(os.path.abspath(__file__)))
 ENV = dict(os.environ, GOFLAGS="-mod=mod", GOPROXY="off", GOSUMDB="off", GOTOOLCHAIN="local")
 
 
-def sh(cmd, cwd, timeout=600, env=None):
+def sh(cmd, cwd, timeout=600, env=None, isolate=False):
+    if isolate:  # the repository's tests listen on fixed ports: a private network namespace keeps parallel runs apart
+        cmd = "unshare -n sh -c %s" % __import__("shlex").quote("ip link set lo up; " + cmd)
     try:
         p = subprocess.run(cmd, shell=True, cwd=cwd, env=env or ENV, capture_output=True, text=True, timeout=timeout)
         return p.returncode, (p.stdout + p.stderr)[-3000:]
@@ -32,7 +34,7 @@ def main():
             env["CGO_ENABLED"] = "1"
         passes = 0
         for i in range(3):
-            rc, o = sh(cmd, pkg, 300, env)
+            rc, o = sh(cmd, pkg, 300, env, isolate=True)
             passes += rc == 0
         res["clean_demo_passes_of_3"] = passes
         os.remove(demo)
@@ -41,7 +43,7 @@ def main():
         if rc == 0:
             rc, o = sh("go build ./...", scratch)
             res["builds"] = rc == 0
-            rc, o = sh("go test -vet=off -count=1 ./...", scratch, 900)
+            rc, o = sh("go test -vet=off -count=1 ./...", scratch, 900, isolate=True)
             res["suite_passes"] = rc == 0
             if rc != 0:
                 res["suite_output"] = o[-800:]
@@ -49,7 +51,7 @@ def main():
             fails = 0
             last = ""
             for i in range(3):
-                rc, o = sh(cmd, pkg, 300, env)
+                rc, o = sh(cmd, pkg, 300, env, isolate=True)
                 fails += rc != 0
                 last = o
             res["mutant_demo_fails_of_3"] = fails
